@@ -28,7 +28,7 @@ Definition psize (p : payload) : nat :=
   match p with
   | PackageVersionAns _ _ => 2
   | McGroupStatusReq _ => 1
-  | McGroupStatusAns _ m _ => 1 + 5 * count_true m     (* multicastsetup.go:250-259 *)
+  | McGroupStatusAns _ m _ => 1 + 5 * count_true m     (* multicastsetup.go:253-262 *)
   | McGroupSetupReq _ _ _ _ _ => 29
   | McGroupSetupAns _ _ => 1
   | McGroupDeleteReq _ => 1
@@ -63,7 +63,7 @@ Definition enc (p : payload) : outcome (list N) :=
   | PackageVersionAns i v => Ok [i; v]
   | McGroupStatusReq m => Ok [mask_bits 0 m 0]
   | McGroupStatusAns nb m items =>
-    (* multicastsetup.go:262-297 *)
+    (* multicastsetup.go:265-299 *)
     if (4 <? length items)%nat then Err else
     let b0 := mask_bits 0 m 0 in
     if negb (Nat.eqb (count_true m) (length items)) then Err else
@@ -99,7 +99,7 @@ Definition dec_McGroupStatusReq (data : list N) : outcome payload :=
   if (length data <? 1)%nat then Err else
   do b <- idx data 0; Ok (McGroupStatusReq (unmask4 b)).
 
-(* the item loop of McGroupStatusAns.UnmarshalBinary: multicastsetup.go:318-329 *)
+(* the item loop of McGroupStatusAns.UnmarshalBinary: multicastsetup.go:320-332 *)
 Fixpoint dec_items (n : nat) (data : list N) (off : nat) : outcome (list (N * list N)) :=
   match n with
   | O => Ok []
@@ -180,7 +180,7 @@ Definition dec_McClassBSessionReq (data : list N) : outcome payload :=
      Periodicity = (data[5] >> 4) & 0x07 *)
   Ok (McClassBSessionReq (N.land b0 0x03) st (N.land (N.shiftr b5 4) 0x07) (N.land b5 0x0f) fr dr).
 
-(* commandPayloadRegistry: multicastsetup.go:41-58 *)
+(* commandPayloadRegistry: multicastsetup.go:42-59 *)
 Definition lookup (uplink : bool) (cid : N) : option (list N -> outcome payload) :=
   if uplink then
     match cid with
